@@ -41,3 +41,71 @@ package core
 //@   loop 1 invariant[C06] 0 <= $k && $k <= len(data) && nz == countnz(arr(data), off(data), uint64($k)) && nz <= uint64($k)
 //@   assigns nothing
 //@   nopanic[C06]
+
+// ---- the Message interface: pure observers -------------------------------------------------
+//@ type Message.Gas
+//@   trusted
+//@   ensures result == msg_gas(self)
+//@   assigns nothing
+//@ type Message.Nonce
+//@   trusted
+//@   ensures result == msg_nonce(self)
+//@   assigns nothing
+//@ type Message.CheckNonce
+//@   trusted
+//@   ensures result == msg_checknonce(self)
+//@   assigns nothing
+//@ type Message.From
+//@   trusted
+//@   ensures result == msg_from(self)
+//@   assigns nothing
+
+//@ macro stok(st) = st != nil && st.gp != nil && st.gasPrice != nil && st.msg != nil && st.state != nil && big(st.gasPrice) >= 0 && notconst(st.gasPrice)
+
+//@ func StateTransition.useGas
+//@   requires st != nil
+//@   ensures[C06] result == nil <==> old(st.gas) >= amount
+//@   ensures[C06] result == nil ==> st.gas == old(st.gas) - amount
+//@   ensures[C06] result != nil ==> st.gas == old(st.gas)
+//@   assigns st.gas
+//@   nopanic[C06]
+
+//@ func StateTransition.gasUsed
+//@   requires st != nil
+//@   ensures[C06] result == st.initialGas - st.gas
+//@   assigns nothing
+//@   nopanic[C06]
+
+// Gas purchase: succeeds exactly when the sender can prepay gasLimit x gasPrice and the block
+// pool holds gasLimit; then the sender is debited exactly that amount, the pool gasLimit.
+//@ func StateTransition.buyGas
+//@   requires stok(st)
+//@   let sender = msg_from(st.msg)
+//@   let cost = U(msg_gas(st.msg)) * old(big(st.gasPrice))
+//@   ensures[C06] @iff result == nil <==> (old(bal[sender]) >= cost && old(uint64(*st.gp)) >= msg_gas(st.msg))
+//@   ensures[C06] @debit result == nil ==> bal == store(old(bal), sender, old(bal[sender]) - cost)
+//@   ensures[C06] @pool result == nil ==> uint64(*st.gp) == old(uint64(*st.gp)) - msg_gas(st.msg) && st.gas == old(st.gas) + msg_gas(st.msg) && st.initialGas == msg_gas(st.msg)
+//@   ensures[C06] @unchanged result != nil ==> bal == old(bal) && *st.gp == old(*st.gp) && st.gas == old(st.gas)
+//@   ensures[C06] nonces == old(nonces)
+//@   nopanic[C06]
+
+// Nonce rule: with nonce checking on, the transaction is refused unless the sender's nonce
+// equals the message nonce.
+//@ func StateTransition.preCheck
+//@   requires stok(st)
+//@   ensures[C06] @nonce result == nil && msg_checknonce(st.msg) ==> old(nonces[msg_from(st.msg)]) == msg_nonce(st.msg)
+//@   ensures[C06] @wrongnonce msg_checknonce(st.msg) && old(nonces[msg_from(st.msg)]) != msg_nonce(st.msg) ==> result != nil && bal == old(bal) && *st.gp == old(*st.gp)
+//@   nopanic[C06]
+
+// Refund: capped at half of the gas consumed and at the refund counter; the sender gets the
+// remaining gas back at the purchase price and the pool gets the same amount of gas.
+//@ func StateTransition.refundGas
+//@   requires stok(st) && st.initialGas >= st.gas
+//@   requires wide(uint64(*st.gp), 128) + wide(st.initialGas, 128) <= 18446744073709551615
+//@   let used = old(st.initialGas - st.gas)
+//@   let sender = msg_from(st.msg)
+//@   ensures[C06] @cap st.gas - old(st.gas) <= used / 2 && st.gas - old(st.gas) <= refundctr && st.gas >= old(st.gas)
+//@   ensures[C06] @exact st.gas - old(st.gas) == ite(used / 2 > refundctr, refundctr, used / 2)
+//@   ensures[C06] @credit bal == store(old(bal), sender, old(bal[sender]) + U(st.gas) * old(big(st.gasPrice)))
+//@   ensures[C06] @pool uint64(*st.gp) == old(uint64(*st.gp)) + st.gas && st.initialGas == old(st.initialGas)
+//@   nopanic[C06]
